@@ -22,6 +22,11 @@ Latitude (where the statement is silent both behaviours are accepted):
  - heading lines ('<path>: <label>', 'CDC: ...'), blank lines, progress messages and plots are ignored;
  - when CLI and API both raise, that is agreement (counted); CLI refusing a filter combination that masks every point
    is accepted; only "CLI raises where the API completes" / "CLI prints where the API raises" are violations;
+ - fit/drt numbers get an extra relative slack of 1e-9 (iterative numerics; worst observed 0.0), and when a fit/drt number
+   disagrees the API calls are repeated unchanged and with one impedance moved by 1e-13: if the API's own numbers move by
+   more than 1e-7 the analysis is ill-conditioned (observed once in ~6000 fits: a leastsq run that wandered until its
+   14000-evaluation cap gave a different end point in the CLI call than in the API call of the same process and could not
+   be reproduced afterwards) and the comparison carries no verdict (counted as ill_conditioned_no_verdict);
  - noise without a seed is not reproducible on either side and is not generated; inputs whose output order the CLI
    defines by its own grouping (same mock label in non-adjacent positions) are not generated; non-positive cut-offs,
    spans that are not a whole number of decades for `circuit --simulate`, BHT (global RNG), TR-RBF (no convex solver
@@ -72,6 +77,8 @@ MIN_EVALS = 200
 EXHAUSTIVE = False
 
 SIGKEY = "C19/json-fewer-significant-digits-than-requested"
+PROBE_REL = 1e-13    # conditioning probe: relative change of one impedance value
+PROBE_AMPLIFIED = 1e-7  # an analysis whose numbers move by more than this under the probe is ill-conditioned (no verdict)
 
 FLAGS = {
     "lpf": ("--low-pass-filter", "-lpf"), "hpf": ("--high-pass-filter", "-hpf"), "ei": ("--exclude-indices", "-ei"),
@@ -604,7 +611,7 @@ def build_argv(job, work, outdir):
 # ------------------------------------------------------------------------------------------------
 # API side
 # ------------------------------------------------------------------------------------------------
-def _api_datasets(job, work):
+def _api_datasets(job, work, perturb=False):
     from pyimpspec import DataSet, generate_mock_data, parse_data
 
     out = []
@@ -627,16 +634,23 @@ def _api_datasets(job, work):
             d.set_mask({int(i): True for i in job["ei"]})
         if d.get_num_points() < 1:
             raise _Refused("every point of a data set is masked")
+        if perturb:
+            # conditioning probe: one impedance moved by 1e-13 relative (public API: subtract_impedances)
+            Z = d.get_impedances(masked=None)
+            delta = np.zeros(len(Z), dtype=complex)
+            k = next(i for i, m in sorted(d.get_mask().items()) if not m)
+            delta[k] = -PROBE_REL * Z[k]
+            d.subtract_impedances(delta)
     return out
 
 
-def api_tables(job, work):
+def api_tables(job, work, perturb=False):
     """The DataFrames of the API calls that correspond to the command, in output order."""
     from pyimpspec import calculate_drt, fit_circuit, generate_mock_circuits, parse_cdc, simulate_spectrum
 
     cmd = job["cmd"]
     if cmd == "parse":
-        return [d.to_dataframe() for d in _api_datasets(job, work)]
+        return [d.to_dataframe() for d in _api_datasets(job, work, perturb)]
     if cmd == "circuit":
         lo = 1e-2 if job.get("min_f") is None else job["min_f"]
         hi = 1e5 if job.get("max_f") is None else job["max_f"]
@@ -656,7 +670,7 @@ def api_tables(job, work):
         kw = {"method": job["method"], "weight": job["weight"], "num_procs": 1}
         if job.get("max_nfev") is not None:
             kw["max_nfev"] = job["max_nfev"]
-        for d in _api_datasets(job, work):
+        for d in _api_datasets(job, work, perturb):
             fit = fit_circuit(parse_cdc(job["cdc"]), d, **kw)
             for _ in range(job.get("nr") or 0):
                 fit = fit_circuit(fit.circuit, d, **kw)
@@ -668,7 +682,7 @@ def api_tables(job, work):
         kw = dict(job["opts"])
         if "circuit" in kw:
             kw["circuit"] = parse_cdc(kw["circuit"])
-        for d in _api_datasets(job, work):
+        for d in _api_datasets(job, work, perturb):
             if "circuit" in job["opts"]:
                 kw["circuit"] = parse_cdc(job["opts"]["circuit"])
             drt = calculate_drt(d, method=job["method"], num_procs=1, **kw)
@@ -713,6 +727,41 @@ def _job_key(job):
     elif job["cmd"] == "circuit":
         extra = (job.get("npd"), job.get("min_f") is None, len(job["inputs"]))
     return (job["clause"], job["mode"], job.get("fmt"), job.get("osd"), bool(job.get("oi")), bool(job.get("ot")), bool(job.get("short")), inp, filt, extra)
+
+
+def _ill_conditioned(job, work, expected):
+    """Lazy precondition check, only run when a fit/drt number disagrees: repeat the API calls (a) unchanged and (b) with
+    one impedance moved by PROBE_REL.  If the API's own numbers are not repeatable or move by more than PROBE_AMPLIFIED the
+    analysis is ill-conditioned (e.g. a fit that wanders until the evaluation cap) and the comparison carries no verdict."""
+    try:
+        with warnings.catch_warnings():
+            warnings.simplefilter("ignore")
+            with np.errstate(all="ignore"):
+                again = api_tables(job, work)
+                moved = api_tables(job, work, perturb=True)
+    except Exception:
+        return True
+    for other in (again, moved):
+        if len(other) != len(expected):
+            return True
+        for a, b in zip(expected, other):
+            if a.shape != b.shape:
+                return True
+            for c in a.columns:
+                for x, y in zip(a[c].tolist(), b[c].tolist()):
+                    if isinstance(x, str) or isinstance(y, str):
+                        if x != y:
+                            return True
+                        continue
+                    try:
+                        x, y = float(x), float(y)
+                    except Exception:
+                        continue
+                    if math.isnan(x) and math.isnan(y):
+                        continue
+                    if not (abs(x - y) <= PROBE_AMPLIFIED * max(abs(x), abs(y))):
+                        return True
+    return False
 
 
 def run_job(job, res):
@@ -808,8 +857,10 @@ def run_job(job, res):
                          "witness": witness(shown)})
             return
         nontrivial = False
+        ill = None
+        extra = C.REL_ITERATIVE if clause in ("fit", "drt") else 0.0
         for k, (tab, df) in enumerate(zip(tables, expected)):
-            r = C.compare_table(tab, df, osd, bool(job.get("oi")))
+            r = C.compare_table(tab, df, osd, bool(job.get("oi")), extra)
             res["evals"] += 1
             st(f"tables_compared:{clause}:{fmt}")
             st("cells_numeric", r["n_num"])
@@ -818,6 +869,12 @@ def run_job(job, res):
                 nontrivial = True
             unit = {"csv": "relerr", "json": "err/ten-decimal-rounding", "md": "err/requested-digits"}[fmt]
             mx(f"{unit}:{clause}:{mode}", r["dev"])
+            if clause in ("fit", "drt") and any(kind == "number" or kind == "row-count" for kind, _ in r["problems"]):
+                if ill is None:
+                    ill = _ill_conditioned(job, work, expected)
+                if ill:
+                    st(f"ill_conditioned_no_verdict:{clause}")
+                    continue
             for kind, msg in r["problems"][:3]:
                 viol.append({"key": f"C19/{clause}/{fmt}/{kind}",
                              "msg": f"pyimpspec {' '.join(argv)}: table {k} ({list(df.columns)[:3]}...): {msg}",
